@@ -32,12 +32,13 @@ const (
 
 var UTC = time.UTC
 
-func Now() Time                    { return vrt.Now() }
-func Until(t Time) Duration        { return vrt.Until(t) }
-func Since(t Time) Duration        { return vrt.Now().Sub(t) }
-func NewTimer(d Duration) *Timer   { return vrt.NewTimer(d) }
-func After(d Duration) <-chan Time { return vrt.NewTimer(d).C }
-func Unix(sec, nsec int64) Time    { return time.Unix(sec, nsec) }
+func Now() Time                             { return vrt.Now() }
+func Until(t Time) Duration                 { return vrt.Until(t) }
+func Since(t Time) Duration                 { return vrt.Now().Sub(t) }
+func NewTimer(d Duration) *Timer            { return vrt.NewTimer(d) }
+func After(d Duration) <-chan Time          { return vrt.NewTimer(d).C }
+func AfterFunc(d Duration, f func()) *Timer { return vrt.AfterFunc(d, f) }
+func Unix(sec, nsec int64) Time             { return time.Unix(sec, nsec) }
 func Date(year int, month Month, day, hour, min, sec, nsec int, loc *Location) Time {
 	return time.Date(year, month, day, hour, min, sec, nsec, loc)
 }
